@@ -76,12 +76,19 @@ def mk(kind, mode):
             "Float": lambda: Float(comparison_mode=cm)}[kind]()
 
 
-def build(raisers, log):
+# traits that get NO trait-level handler at all in the "bare" variant of the class (which also has no static
+# _anytrait_changed, because that one is attached to every class trait): only object-level handlers see their changes
+BARE = ("any_e", "any_i", "int_e", "list_i", "event_e", "str_n")
+
+
+def build(raisers, log, bare=False):
     ns = {}
     for nm in NAMES:
         kind, mode = nm.split("_")
         kind = {"any": "Any", "int": "Int", "str": "Str", "list": "List", "inst": "Inst", "event": "Event", "float": "Float"}[kind]
         ns[nm] = mk(kind, mode)
+        if bare and nm in BARE:
+            continue
 
         def mkstatic(nm):
             def static(self, name, old, new):
@@ -96,7 +103,8 @@ def build(raisers, log):
             log.append(("any", name, old, new))
             if "any" in raisers:
                 raise ValueError("boom")
-    ns["_anytrait_changed"] = anyt
+    if not bare:
+        ns["_anytrait_changed"] = anyt
     return type("C", (HasTraits,), ns)
 
 
@@ -117,6 +125,7 @@ def strategy(tier):
         "raisers": st.lists(st.sampled_from(["static", "any", "otc", "obs"]), max_size=2, unique=True),
         # two object-level handlers registered without a name; the first may remove itself during its first call
         "object_level": st.sampled_from([None, None, "plain", "oneshot", "oneshot-raising"]),
+        "bare": st.sampled_from([False, False, True]),
         "ops": st.lists(op_strategy(), min_size=1, max_size=30),
     })
 
@@ -129,8 +138,11 @@ def log_has_first_alive(log, ol_state, alive_before):
 def run(case, ctx):
     log = []
     raisers = set(case["raisers"])
-    cls = build(raisers, log)
+    bare = bool(case.get("bare"))
+    cls = build(raisers, log, bare)
     o = cls()
+    if bare:
+        ctx.label("bare-class")
 
     def otc(obj, name, old, new):
         log.append(("otc", name, old, new))
@@ -142,6 +154,8 @@ def run(case, ctx):
         if "obs" in raisers:
             raise TypeError("boom")
     for nm in NAMES:
+        if bare and nm in BARE:
+            continue
         o.on_trait_change(otc, nm)
         o.observe(obs, nm)
     ol = case.get("object_level")
@@ -225,7 +239,10 @@ def run(case, ctx):
             first_was_alive = alive_before if ol else False
             ol1 = len(by.pop("ol1", []))
             ol2 = len(by.pop("ol2", []))
-            counts = {m: len(by.get(m, [])) for m in ("static", "any", "otc", "obs")}
+            mechs = () if (bare and nm in BARE) else ("static", "otc", "obs") if bare else ("static", "any", "otc", "obs")
+            if set(by) - set(mechs):
+                ctx.fail("count/unregistered-mechanism", "handlers %r were called but are not registered for %s: %s" % (sorted(by), nm, what))
+            counts = {m: len(by.get(m, [])) for m in mechs}
             if quiet:
                 interesting = True
                 ctx.label("quiet-set")
@@ -253,7 +270,7 @@ def run(case, ctx):
                         interesting = True
                         ctx.label("equal-not-identical")
             if exp is None:
-                if len(set(counts.values())) != 1:
+                if len(set(counts.values())) > 1:
                     ctx.fail("count/mechanisms-disagree", "%r: %s" % (counts, what))
             elif any(c != exp for c in counts.values()):
                 ctx.fail("count/wrong", "expected %d call(s) per handler, got %r: %s (after %r)" % (exp, counts, what, after))
@@ -283,4 +300,4 @@ def run(case, ctx):
 
 def stages(tier):
     return [{"name": "hist", "kind": "hyp", "strategy": strategy, "run": run,
-             "examples": {"quick": 6000, "thorough": 400000}, "shards": 16}]
+             "examples": {"quick": 15000, "thorough": 400000}, "shards": 16}]
